@@ -579,3 +579,19 @@ def main(prop):
 
 if __name__ == '__main__':
     sys.exit(main(sys.argv[1]))
+
+
+def replay_file(prop, path):
+    """re-run a stored counterexample against the real code: exit 1 if it still reproduces, 0 if not"""
+    global PROP
+    PROP = prop
+    common.build_driver()
+    r = json.load(open(path))
+    fail = {'ob': r['obligation'], 'cause': r.get('cause'), 'point': r.get('counterexample')}
+    if 'steps' in (r.get('confirmation') or {}):
+        fail['steps'] = r['confirmation']['steps']
+    ok, detail = replay_fail(r['model'], fail)
+    print(json.dumps({'reproduces': ok, 'detail': detail}, indent=1, default=str))
+    if ok:
+        print('VIOLATION property=%s replay=%s' % (prop, path))
+    return 1 if ok else 0
